@@ -18,6 +18,11 @@ import puan.modules.configurator as cc
 #      {"c": "ccAny"|"ccXor", "args", "default": [id...], "id"?} | {"c": "Stingy", "args", "id"?}
 # "$k": sharing key — two AST nodes with the same $k are the same Python object.
 
+class SubVar(puan.variable):
+    """an application-defined variable class (the repository's tests build models over such subclasses)"""
+    pass
+
+
 def build(ast, memo=None):
     memo = {} if memo is None else memo
     k = ast.get("$k")
@@ -32,6 +37,8 @@ def build(ast, memo=None):
 def _build(a, memo):
     c = a["c"]
     if c == "var":
+        if a.get("$sub"):
+            return SubVar(a["id"], (a["lo"], a["hi"]))
         return puan.variable(a["id"], (a["lo"], a["hi"]))
     if c == "str":
         return a["id"]
